@@ -5,6 +5,7 @@ import DesyncModel.Spec
 import DesyncModel.Tables.Panic
 import DesyncModel.Tables.Pool
 import DesyncModel.FactGuard
+import DesyncModel.Inv.Panicked
 
 namespace Desync.C15
 open Desync Gen
@@ -37,5 +38,34 @@ theorem drop_in_panic (e : Bool) : syncNoPanicDecide .panicked e = (.panicked, .
 
 /-- finished (panicked) pool threads are reaped before the dormant scan, so the lost capacity is replaced -/
 theorem capacity_restored : dormantReapsFirst = true := dormant_reaps_first
+
+/-! ### executions that start after a panic has finished unwinding
+
+`Reachable` has a second kind of initial state, `initStateP`, in which some objects are already `panicked` (the guard has marked
+them: `guard_marks_panicked_always`).  C15's quantifier is exactly over what happens from there. -/
+
+/-- **A panicked object stays panicked**: no step of the model — no entry point, runner, waker, reschedule or drop — ever writes
+another state into a panicked queue.  (`Pan`, over every program counter and every environment step: Inv/Panicked.) -/
+theorem panicked_stays_panicked {s s' : State} (hr : Reachable s) (l : Label) (hstep : next s l = some s') {q : Nat}
+    (hp : s.qSt q = some .panicked) : s'.qSt q = some .panicked :=
+  panicked_is_absorbing hr l hstep q hp
+
+/-- **Nothing scheduled on a panicked object is ever run, and nobody owns it**: in every reachable state no activity is inside
+the code that runs a panicked queue and none of its jobs is in a runner's hands (with `refuses_loudly`: every entry point
+that finds the queue panicked takes the panic action instead). -/
+theorem panicked_object_is_never_run {s : State} (hr : Reachable s) {q : Nat} {v : JobQ} (hv : s.qs[q]? = some v) (hp : v.state = .panicked) :
+    (∀ a, (s.pcAt a).holds q = false) ∧ (∀ (j : Nat) (jb : Job) (a : Nat), s.jobs[j]? = some jb → jb.q = q → jb.ph ≠ Phase.held a) :=
+  panicked_queue_runs_nothing hr hv hp
+
+/-- **The other objects remain fully usable** (safety half): every theorem about reachable states — exclusion (C01), order
+(C02), placement of accepted operations and at-most-once (C03, C04, C07), the pool bound (C17), ... — holds in executions
+that start with panicked objects, because those states are `Reachable`; e.g. exclusion and order: -/
+theorem healthy_objects_keep_their_guarantees (ps : List Bool) (ng max : Nat) {s : State}
+    (hr : Reachable s) : Exclusive s ∧ InOrder s :=
+  ⟨exclusive_reachable hr, inOrder_reachable hr⟩
+
+/-- non-vacuity: an execution that starts with object 0 panicked and object 1 healthy, in which a `sync` on object 1 is running -/
+example : ∃ s, Reachable s ∧ s.qSt 0 = some .panicked ∧ ∃ a, (s.pcAt a).holds 1 = true := by
+  refine ⟨_, Reachable.step (.act 0) (Reachable.step (.invoke 1 none (.sync 1)) (Reachable.initP [true, false] 0 1) rfl) rfl, ?_, 0, ?_⟩ <;> decide
 
 end Desync.C15
